@@ -6,6 +6,6 @@ package main
 const prop = "C15"
 
 const (
-	quickCases    = 14
-	thoroughCases = 200
+	quickCases    = 40
+	thoroughCases = 600
 )
